@@ -191,6 +191,16 @@ pub fn run() {
     // the sound driver sizes allocations from configuration; keep it well-formed
     zoo::setup_device(kind, offered, kind.default_config());
     zoo::install_personality(kind);
+    if kind == Kind::Gpu && flip(1, 6) {
+        // nothing plugged into scanout 0: the display-info rectangle is empty
+        with(|w| w.personality::<crate::devices::gpu::GpuDev>().display = (0, 0));
+    }
+    if flip(1, 8) {
+        // fault: the status register never shows FEATURES_OK. What the driver makes of that is its
+        // business, but it still must not kick a queue before it has written DRIVER_OK.
+        with(|w| w.tr.features_ok_not_latched = true);
+        fault("features_ok_not_latched");
+    }
     oplog(|| format!("{} over {tk:?}, offered features {offered:#x}", zoo::kind_name(kind)));
     if let Err(e) = zoo::with_transport(tk, Run { kind, offered }) {
         violation("transport-construction-failed", "zoo", e);
